@@ -13,6 +13,7 @@ def run(prop, tier, seed, work, ev):
     tlc_ok("mc/MC_Cmp.tla", "MC_Cmp_near.cfg", work, ev=ev, timeout=3000,
            label="universe with neighbouring doubles and large magnitudes: exact order and equality at L0; L1 = L0 up to the tolerant '==' (DEV_TOLERANT_EQ)")
     tlc_must_fail("mc/MC_Cmp.tla", "MC_Cmp_near_nonvacuous.cfg", work, invariant="Inv_NoTolerantPair", ev=ev)
+    tlc_must_fail("mc/MC_Cmp.tla", "MC_Cmp_near_neg_overflow.cfg", work, invariant="Inv_L1Near", ev=ev)
     ev.exhaustive = True
     ev.rule = ("cases: every ordered pair of a pool of 44 JSON texts (all type pairings, nested and empty containers, the spellings "
                "0/-0/0.0, 1/1.0/1e0/10e-1/0.1e1, 1.5/15e-1, objects with permuted keys, escaped strings) under all six operators at once, "
